@@ -237,7 +237,16 @@ class PluginGroup(Generic[T], metaclass=PluginGroupMeta):
     # ----
     # dict-like interface will provide latest versions of plugins by default
 
+    def _is_foreign(self, key) -> bool:
+        """Return whether the key explicitly refers to a plugin of another group."""
+        group = getattr(key, "group", None)  # a plugin reference?
+        if not isinstance(group, str):  # maybe a plugin class -> look at its info
+            group = getattr(getattr(key, "Plugin", None), "group", None)
+        return isinstance(group, str) and group != "" and group != self.name
+
     def __contains__(self, key) -> bool:
+        if self._is_foreign(key):
+            return False
         name, version = plugin_args(key)
         if pg_versions := self._VERSIONS.get(name):
             if not version:
@@ -296,6 +305,8 @@ class PluginGroup(Generic[T], metaclass=PluginGroupMeta):
     def get(
         self, key: Union[str, PRX], version: Optional[SemVerTuple] = None
     ) -> Union[Type[T], PRX, None]:
+        if self._is_foreign(key):
+            return None  # e.g. a reference to a plugin of a different group
         key_, version = plugin_args(key, version)
 
         # retrieve compatible plugin
